@@ -47,6 +47,9 @@ type Explorer struct {
 	solverErrs int
 }
 
+const maxPooledTerms = 150000
+const maxPooledQueries = -1
+
 var interpPool struct {
 	mu   sync.Mutex
 	free []*Interp
@@ -55,6 +58,7 @@ var interpPool struct {
 // releaseInterp returns an interpreter (with its initialised package state
 // and its solver process) to the pool for the next kernel of this process.
 func releaseInterp(in *Interp) {
+	in.pooledQueries += in.solver.Queries
 	interpPool.mu.Lock()
 	interpPool.free = append(interpPool.free, in)
 	interpPool.mu.Unlock()
@@ -71,9 +75,16 @@ func closeInterpPool() {
 
 func (ex *Explorer) newInterp() (*Interp, error) {
 	interpPool.mu.Lock()
-	if n := len(interpPool.free); n > 0 && interpPool.free[n-1].prog == ex.prog && interpPool.free[n-1].solver.kind == solverKindName(ex.solverKind) && interpPool.free[n-1].solver.Errors == 0 {
+	for len(interpPool.free) > 0 {
+		n := len(interpPool.free)
 		in := interpPool.free[n-1]
 		interpPool.free = interpPool.free[:n-1]
+		if !(in.prog == ex.prog && in.solver.kind == solverKindName(ex.solverKind) && in.solver.Errors == 0) || len(in.ts.all) > maxPooledTerms || in.pooledQueries > maxPooledQueries {
+			// a term store / solver context that has grown large slows every
+			// later query and evaluation: start afresh instead of reusing it
+			in.solver.Close()
+			continue
+		}
 		interpPool.mu.Unlock()
 		in.solver.SetTimeout(ex.timeoutMs)
 		in.solver.Queries = 0
